@@ -520,7 +520,7 @@ def dictOf : List (String × String) → Nat → List (String × ENode)
   | [p], l => [(p.1, .mk (.str p.2) l)]
   | p :: q :: ps, l => dictSet (dictOf (q :: ps) (l + 1)) p.1 (.mk (.str p.2) l)
 
-theorem pairRPair (p : String × String) (l : Nat) : RPair (pairToks p l) (p.1, .mk (.str p.2) l) := RPair.str p.1 p.2 l l l
+theorem pairRPair (p : String × String) (l : Nat) : RPair (pairToks p l) (p.1, .mk (.str p.2) l) := RPair.str true p.1 p.2 l l l
 
 theorem pairsRPairs : ∀ (ps : List (String × String)), ps ≠ [] → ∀ l, RPairs (pairsToks ps l) (dictOf ps l)
   | [], h, _ => absurd rfl h
